@@ -107,7 +107,8 @@ pub fn check_at(h: &History, k: usize) -> Result<Option<bool>, Failure> {
     }
     let nontrivial = !doc["fcnt_down"].is_null() || doc["uplink"]["pending_len"].as_u64().unwrap_or(0) > 0 || doc["uplink"]["confirmed"].as_bool().unwrap_or(false);
     // ---- behavioural equality: the restored twin continues like the original
-    let mut b = World::from_session(h, &doc2, &a).map_err(|e| Failure::new("harness", case(), e))?;
+    // every second crash point restores onto a live, ABP-provisioned nb device instead of a fresh one
+    let mut b = World::from_session_via(h, &doc2, &a, k % 2 == 1).map_err(|e| Failure::new("harness", case(), e))?;
     let dr = a.front.get_datarate();
     b.front.set_datarate(dr);
     let adr = a.front.get_adr();
